@@ -133,7 +133,7 @@ def draw_params(draw, name, t, opts, depth_left, no_ct, tainted=False):
     if name == 'scan_or':
         return [name, draw(ints(-2, 4))]
     if name == 'scan_list':
-        return [name, draw(st.sampled_from(['value', 'factory'])), red() if t in A.SCALAR else True]
+        return [name, draw(st.sampled_from(['value', 'factory', 'nested'])), red() if t in A.SCALAR else True]
     if name == 'take':
         return [name, draw(ints(0, 4))]
     if name == 'batch':
